@@ -75,7 +75,7 @@ pub fn expanding_table(lang: &str) -> Vec<(char, &'static str)> {
         "fr" => vec![('Æ', "AE"), ('æ', "ae"), ('Œ', "OE"), ('œ', "oe"), ('Ø', "OE"), ('ø', "oe")],
         "xk" => vec![('ゟ', "より")],
         // the reduce-only language: every entry of its reduce table (two of them do not lengthen the text)
-        "xr" => vec![('ß', "ss"), ('ẞ', "SS"), ('é', "e"), ('É', "E"), ('ø', "oe"), ('Ø', "OE"), ('w', "v"), ('W', "V"), ('x', "ks"), ('X', "KS"), ('å', "aa"), ('Å', "AA")],
+        "xr" => vec![('ß', "ss"), ('ẞ', "ß"), ('é', "e"), ('É', "E"), ('ø', "oe"), ('Ø', "OE"), ('w', "v"), ('W', "V"), ('x', "ks"), ('X', "KS"), ('å', "aa"), ('Å', "AA")],
         _ => vec![],
     }
 }
@@ -175,6 +175,41 @@ pub fn norm_word(lang: &str, w: &str) -> String {
         for x in folded.chars() {
             out.extend(x.to_lowercase());
         }
+        i += 1;
+    }
+    out
+}
+
+/// Letters that a reduction of the language PRODUCES and that its table would reduce again (the middle of a chain): a
+/// stored word may legitimately still contain them.
+pub fn chain_letters(lang: &str) -> Vec<char> {
+    let mut out = vec![];
+    for (_, to) in expanding_table(lang) {
+        for c in to.chars() {
+            if fold(lang, c).is_some() && !out.contains(&c) {
+                out.push(c);
+            }
+        }
+    }
+    out
+}
+
+/// One pass of the language's composition and of its reductions over a text, without lower-casing: the text a language
+/// object has produced internally after normalising `text` (expanding letters come out expanded, a chained entry one step).
+pub fn reduce_once(lang: &str, text: &str) -> String {
+    let cs = compose(lang, &cv(text));
+    let pairs = reduced_pairs(lang);
+    let mut out = String::new();
+    let mut i = 0;
+    while i < cs.len() {
+        let mut c = cs[i];
+        if i + 1 < cs.len() {
+            if let Some(p) = pairs.iter().find(|p| p.base == cs[i] && p.mark == cs[i + 1]) {
+                c = p.composed;
+                i += 1;
+            }
+        }
+        out.push_str(&fold(lang, c).unwrap_or_else(|| c.to_string()));
         i += 1;
     }
     out
